@@ -27,6 +27,7 @@ import (
 	"net"
 	"net/netip"
 	"strconv"
+	"strings"
 	"sync"
 	"testing"
 	"testing/synctest"
@@ -35,9 +36,10 @@ import (
 )
 
 type vfSkDest struct {
-	K    string `json:"k"`
+	K    string `json:"k"` // ip4 | ip6 (plain literal, B = address) | name | odd (B = host text)
 	B    []int  `json:"b"`
 	Port int    `json:"port"`
+	Sp   string `json:"sp,omitempty"` // spelling only: "upper" (IPv6 literal in upper case), "raw" (no brackets)
 }
 
 type vfSkAuth struct {
@@ -90,8 +92,14 @@ func vfSkAddress(d vfSkDest) string {
 			panic("driver: bad address length")
 		}
 		host = a.String()
+		if d.Sp == "upper" {
+			host = strings.ToUpper(host)
+		}
 	default:
 		host = string(vfSkBytes(d.B))
+	}
+	if d.Sp == "raw" {
+		return host + ":" + strconv.Itoa(d.Port)
 	}
 	return net.JoinHostPort(host, strconv.Itoa(d.Port))
 }
@@ -437,6 +445,43 @@ func vfSkRandReply(rnd *rand.Rand) []int {
 	return r
 }
 
+// vfSkRandOdd: a host text that is neither a plain IP literal nor an ordinary name.
+func vfSkRandOdd(rnd *rand.Rand) string {
+	hex := func() string { return strconv.FormatInt(int64(rnd.Intn(0x10000)), 16) }
+	zone := func() string {
+		if rnd.Intn(2) == 0 {
+			return strconv.Itoa(rnd.Intn(100))
+		}
+		return []string{"eth0", "en0", "wlan1", "lo", "Ethernet_2"}[rnd.Intn(5)]
+	}
+	v4 := func(n int) string {
+		p := make([]string, n)
+		for i := range p {
+			p[i] = strconv.Itoa(rnd.Intn(256))
+		}
+		return strings.Join(p, ".")
+	}
+	switch rnd.Intn(9) {
+	case 0:
+		return "fe80::" + hex() + "%" + zone()
+	case 1:
+		return "fe80::" + hex() + ":" + hex() + ":" + hex() + "%" + zone()
+	case 2:
+		return strings.ToUpper("fe80:0:0:0:" + hex() + ":" + hex() + ":" + hex() + ":" + hex()) + "%" + zone()
+	case 3:
+		return "::ffff:" + v4(4) + "%" + zone()
+	case 4:
+		return "0" + strconv.Itoa(1+rnd.Intn(99)) + "." + v4(3) // leading zero
+	case 5:
+		return v4(2 + rnd.Intn(2)) // short form
+	case 6:
+		return v4(5)
+	case 7:
+		return "0x" + hex() + "." + v4(1+rnd.Intn(3))
+	}
+	return string(vfSkBytes(vfSkRandName(rnd, 1+rnd.Intn(30)))) + "."
+}
+
 func vfSkRecord(t *testing.T, env *vfEnv) {
 	n := env.Int("traces", 300)
 	for tr := 1; tr <= n && !env.Hung; tr++ {
@@ -454,6 +499,12 @@ func vfSkRecord(t *testing.T, env *vfEnv) {
 			scn.Dest = vfSkDest{K: "ip6", B: b}
 		default:
 			scn.Dest = vfSkDest{K: "name", B: vfSkRandName(rnd, vfSkRandLen(rnd))}
+		}
+		if rnd.Intn(6) == 0 {
+			scn.Dest = vfSkDest{K: "odd", B: vfSkInts([]byte(vfSkRandOdd(rnd)))}
+			if rnd.Intn(5) == 0 {
+				scn.Dest.Sp = "raw"
+			}
 		}
 		scn.Dest.Port = vfSkRandPort(rnd)
 		scn.Auth = vfSkAuth{U: []int{}, P: []int{}}
